@@ -258,6 +258,17 @@ def settings_readback(chk, gwbin, label="xattr", cfg=None):
                 if got is None or [x for x in got[1] if x[0] != "u1"] != sorted(grants) or got2 != got:
                     chk.fail("c16:acl-body-readback", "PutBucketAcl with the grants %r in the body reads back %r (after a restart %r)" % (grants, got and got[1], got2 and got2[1]), {"grants": grants})
         R.req("PUT", "/" + bk, query={"acl": ""}, headers={"x-amz-acl": "private"})
+        # grants given at creation: the ACL of the new bucket is the ACL that was written
+        for gi, ghd in enumerate(({"x-amz-grant-write": "u2"}, {"x-amz-grant-write": "u2", "x-amz-grant-write-acp": "adm"}, {"x-amz-grant-read": "adm", "x-amz-grant-write": "u2", "x-amz-grant-read-acp": "u2"},
+                                  {"x-amz-grant-full-control": "adm", "x-amz-grant-write-acp": "u2"})):
+            gb = "grant-bkt-%d" % gi
+            rc_ = U1.req("PUT", "/" + gb, headers=dict(ghd, **{"x-amz-object-ownership": "BucketOwnerPreferred"}))
+            ra_ = R.req("GET", "/" + gb, query={"acl": ""})
+            gotg = sorted((gr.findtext("Grantee/ID") or "", gr.findtext("Permission")) for gr in ra_.xml().iter("Grant")) if ra_.status == 200 and ra_.xml() is not None else None
+            wantg = sorted((v_, {"x-amz-grant-write": "WRITE", "x-amz-grant-write-acp": "WRITE_ACP", "x-amz-grant-read": "READ", "x-amz-grant-read-acp": "READ_ACP", "x-amz-grant-full-control": "FULL_CONTROL"}[h_]) for h_, v_ in ghd.items())
+            chk.case(("create-with-grants", label, tuple(sorted(ghd))), True); chk.traces += 1; chk.count("create-with-grants:%d" % rc_.status)
+            if rc_.status == 200 and (gotg is None or [x for x in gotg if x[0] != "u1"] != wantg):
+                chk.fail("c16:acl-readback:create-bucket-grants", "CreateBucket with %r reads back the grants %r" % (ghd, gotg), {"headers": ghd, "grants_read": gotg, "grants_written": wantg})
         R.req("PUT", "/" + bk, query={"ownershipControls": ""}, body=b"<OwnershipControls><Rule><ObjectOwnership>BucketOwnerPreferred</ObjectOwnership></Rule></OwnershipControls>")
         for kind, doc, put, get, deletable in kinds:
             r = put(); got = get(); restart(); got2 = get()
@@ -341,7 +352,8 @@ def settings_readback(chk, gwbin, label="xattr", cfg=None):
 def recreate_fresh(chk, gwbin):
     """a deleted bucket is gone with everything that was set on it: a later bucket of the same name starts from the defaults
     (both metadata stores: xattrs die with the directory, the sidecar store keeps attributes by name)"""
-    for label, cfg in (("xattr", {"iam": True, "versioning": True}), ("sidecar", {"iam": True, "versioning": True, "meta": "sidecar"})):
+    for label, cfg in (("xattr", {"iam": True, "versioning": True}), ("sidecar", {"iam": True, "versioning": True, "meta": "sidecar"}),
+                       ("xattr-noversioning", {"iam": True}), ("sidecar-noversioning", {"iam": True, "meta": "sidecar"})):
         with gw.Site(cfg, name="c16f") as site:
             g = site.gateway(gwbin)
             R = s3c.Client(g.port, "root", "rootsecret")
